@@ -7,6 +7,7 @@ import WsVerif.Ops.History
 import WsVerif.Ops.Frame
 import WsVerif.Ops.Specpart
 import WsVerif.Ops.Native
+import WsVerif.Ops.Split
 import WsVerif.Ops.IO
 import WsVerif.Ops.Instruments
 import WsVerif.Ops.Construct
@@ -18,7 +19,7 @@ import WsVerif.Ops.Assembly
 open WS WS.Proto
 
 def allOps : List (String × P String) :=
-  WS.Ops.Stats.ops ++ WS.Ops.Peak.ops ++ WS.Ops.Track.ops ++ WS.Ops.Select.ops ++ WS.Ops.History.ops ++ WS.Ops.Frame.ops ++ WS.Ops.Specpart.ops ++ WS.Ops.Native.ops ++ WS.Ops.IO.ops ++ WS.Ops.Instruments.ops ++ WS.Ops.Construct.ops ++ WS.Ops.Smooth.ops ++ WS.Ops.Regrid.ops ++ WS.Ops.Assembly.ops
+  WS.Ops.Stats.ops ++ WS.Ops.Peak.ops ++ WS.Ops.Track.ops ++ WS.Ops.Select.ops ++ WS.Ops.History.ops ++ WS.Ops.Frame.ops ++ WS.Ops.Specpart.ops ++ WS.Ops.Native.ops ++ WS.Ops.Split.ops ++ WS.Ops.IO.ops ++ WS.Ops.Instruments.ops ++ WS.Ops.Construct.ops ++ WS.Ops.Smooth.ops ++ WS.Ops.Regrid.ops ++ WS.Ops.Assembly.ops
 
 def dispatch (op : String) : P String :=
   match allOps.lookup op with
